@@ -31,6 +31,13 @@ func TestShow(t *testing.T) {
 	}
 	c := wrap.Case
 	fmt.Println("MESSAGE:", wrap.Message)
+	if c == nil || c.Main == nil {
+		var generic map[string]any
+		_ = json.Unmarshal(raw, &generic)
+		b, _ := json.MarshalIndent(generic["case"], "", " ")
+		fmt.Println(string(b))
+		return
+	}
 	fmt.Println("----- main workflow")
 	fmt.Println(vcase.RenderYAML(c.Main))
 	for name, p := range c.Subs {
